@@ -112,8 +112,16 @@ func TestVerif_C09(t *testing.T) {
 		} else {
 			h = verifRandomHistory(fmt.Sprintf("c09-%d-%d", r.Seed, hi), rng, 7+rng.Intn(14), 5+rng.Intn(36))
 		}
-		node := h.node(t)
-		fresh := func() *Node { return h.node(t) }
+		node, closeNode := h.nodeOwned()
+		var freshClose []func()
+		fresh := func() *Node {
+			for _, f := range freshClose { // the previous judgement is over
+				f()
+			}
+			n, cl := h.nodeOwned()
+			freshClose = []func(){cl}
+			return n
+		}
 		times := h.boundaries(rng, 20)
 		rng.Shuffle(len(times), func(i, j int) { times[i], times[j] = times[j], times[i] })
 		nq := r.N(22, 120)
@@ -269,6 +277,10 @@ func TestVerif_C09(t *testing.T) {
 				}
 			}
 		}
+		for _, f := range freshClose {
+			f()
+		}
+		closeNode()
 	}
 	r.Note("accepted_certificates", accepted)
 	r.Note("rejected_certificates", rejected)
